@@ -5,9 +5,9 @@ import "math"
 // Desc is a Property Descriptor (8.10): any subset of the six fields. A stored
 // property is a fully populated data or accessor descriptor.
 type Desc struct {
-	Value                                                          Value
-	Get, Set                                                       Value // Undefined or a callable object
-	Writable, Enumerable, Configurable                             bool
+	Value                                                                 Value
+	Get, Set                                                              Value // Undefined or a callable object
+	Writable, Enumerable, Configurable                                    bool
 	HasValue, HasGet, HasSet, HasWritable, HasEnumerable, HasConfigurable bool
 }
 
@@ -46,9 +46,42 @@ type Obj struct {
 	Call        func(r *Realm, this Value, args []Value) Value
 }
 
+// Quirks are defect-injection switches. They are all false in the reference
+// model; the checks switch one on to build the ALTERNATIVE model of a known
+// finding (the exact failure mode of the implementation), never as an oracle.
+type Quirks struct {
+	// ArgumentsKeepMapping: the arguments object never drops a parameter
+	// mapping in [[DefineOwnProperty]] (10.6 steps 5.a and 5.b.ii are skipped),
+	// the property table holds a placeholder (undefined) for mapped indices,
+	// [[GetOwnProperty]] of a mapped index shows a data property carrying the
+	// parameter's value even when the stored property is an accessor, and
+	// [[DefineOwnProperty]] validates against the stored (raw) property.
+	ArgumentsKeepMapping bool
+	// ResultHolesUndefined: concat, slice, splice (returned array) and map
+	// create an own property with value undefined where the source has a hole.
+	ResultHolesUndefined bool
+	// SpliceNoArgsDeletesAll: splice() with no argument deletes from 0 to the end.
+	SpliceNoArgsDeletesAll bool
+	// ReduceOnlyHolesUndefined: reduce/reduceRight without initial value over a
+	// non-empty receiver that has no present element return undefined instead of throwing.
+	ReduceOnlyHolesUndefined bool
+	// ReduceRightStringIndex: reduceRight passes the index to the callback as a String.
+	ReduceRightStringIndex bool
+	// LastIndexOfClamp: lastIndexOf has no early exit for length 0 and clamps
+	// fromIndex with "n > len" instead of min(n, len-1).
+	LastIndexOfClamp bool
+	// ArrayIndexParseInt: the array [[DefineOwnProperty]] recognises indices with
+	// strconv.ParseInt (optional sign, leading zeros): "01", "+1", "-0" alias "1", "1", "0".
+	ArrayIndexParseInt bool
+	// ArrayLengthSameValueRejects: defining "length" with its current value on
+	// an array whose length is not writable is rejected (newLen > oldLen instead of >=).
+	ArrayLengthSameValueRejects bool
+}
+
 // Realm holds the intrinsics the model needs and the side-effect log written
 // by test getters/setters/callbacks.
 type Realm struct {
+	Quirk                                                                                                  Quirks
 	ObjectPrototype, FunctionPrototype, ArrayPrototype, StringPrototype, NumberPrototype, BooleanPrototype *Obj
 	Log                                                                                                    []string
 }
@@ -102,6 +135,9 @@ func (r *Realm) NewArguments(args []Value, formals []*Value, callee *Obj) *Obj {
 	o.ParamMap = map[string]*Value{}
 	o.define("length", DataDesc(Num(float64(len(args))), true, false, true))
 	for i, a := range args {
+		if r.Quirk.ArgumentsKeepMapping && i < len(formals) && formals[i] != nil {
+			a = Undef
+		}
 		o.define(NumberToString(float64(i)), DataDesc(a, true, true, true))
 	}
 	for i, b := range formals {
@@ -173,8 +209,8 @@ func (r *Realm) GetOwnProperty(o *Obj, p string) *Desc {
 		if math.IsInf(n, 0) || NumberToStringSafe(math.Abs(n)) != p {
 			return nil
 		}
-		str := o.Prim.S                     // 4
-		index := n                          // 5
+		str := o.Prim.S                              // 4
+		index := n                                   // 5
 		if float64(len(str)) <= index || index < 0 { // 6-7
 			return nil
 		}
@@ -187,6 +223,10 @@ func (r *Realm) GetOwnProperty(o *Obj, p string) *Desc {
 			return nil // 2
 		}
 		if b, mapped := o.ParamMap[p]; mapped { // 3-5
+			if r.Quirk.ArgumentsKeepMapping && d.IsAccessor() {
+				x := DataDesc(*b, false, d.Enumerable, d.Configurable)
+				return &x
+			}
 			d.Value = *b
 		}
 		return d
@@ -314,9 +354,9 @@ func (r *Realm) ordinaryDelete(o *Obj, p string, throw bool) bool {
 // Delete is 8.12.7 with the 10.6 override.
 func (r *Realm) Delete(o *Obj, p string, throw bool) bool {
 	if o.IsArguments {
-		_, isMapped := o.ParamMap[p]          // 1-2
+		_, isMapped := o.ParamMap[p]            // 1-2
 		result := r.ordinaryDelete(o, p, throw) // 3
-		if result && isMapped {               // 4
+		if result && isMapped {                 // 4
 			delete(o.ParamMap, p)
 		}
 		return result
@@ -333,7 +373,10 @@ func (r *Realm) ordinaryDefineOwnProperty(o *Obj, p string, desc Desc, throw boo
 		return false
 	}
 	current := r.GetOwnProperty(o, p) // 1
-	extensible := o.Extensible        // 2
+	if r.Quirk.ArgumentsKeepMapping && o.IsArguments {
+		current = o.ordinaryGetOwnProperty(p)
+	}
+	extensible := o.Extensible         // 2
 	if current == nil && !extensible { // 3
 		return reject()
 	}
@@ -451,9 +494,9 @@ func (r *Realm) DefineOwnProperty(o *Obj, p string, desc Desc, throw bool) bool 
 		return r.arrayDefineOwnProperty(o, p, desc, throw)
 	case o.IsArguments:
 		// 10.6 [[DefineOwnProperty]]
-		b, isMapped := o.ParamMap[p]                            // 1-2
+		b, isMapped := o.ParamMap[p]                              // 1-2
 		allowed := r.ordinaryDefineOwnProperty(o, p, desc, false) // 3
-		if !allowed {                                           // 4
+		if !allowed {                                             // 4
 			if throw {
 				throwType()
 			}
@@ -461,12 +504,14 @@ func (r *Realm) DefineOwnProperty(o *Obj, p string, desc Desc, throw bool) bool 
 		}
 		if isMapped { // 5
 			if desc.IsAccessor() { // a
-				delete(o.ParamMap, p)
+				if !r.Quirk.ArgumentsKeepMapping {
+					delete(o.ParamMap, p)
+				}
 			} else { // b
 				if desc.HasValue { // i
 					*b = desc.Value
 				}
-				if desc.HasWritable && !desc.Writable { // ii
+				if desc.HasWritable && !desc.Writable && !r.Quirk.ArgumentsKeepMapping { // ii
 					delete(o.ParamMap, p)
 				}
 			}
@@ -490,25 +535,25 @@ func (r *Realm) arrayDefineOwnProperty(a *Obj, p string, desc Desc, throw bool) 
 		if !desc.HasValue { // a
 			return r.ordinaryDefineOwnProperty(a, "length", desc, throw)
 		}
-		newLenDesc := desc                // b
-		newLen := r.ToUint32(desc.Value)  // c
+		newLenDesc := desc                             // b
+		newLen := r.ToUint32(desc.Value)               // c
 		if float64(newLen) != r.ToNumber(desc.Value) { // d
 			throwRange()
 		}
-		newLenDesc.Value = Num(float64(newLen)) // e
-		if newLen >= oldLen {                   // f
+		newLenDesc.Value = Num(float64(newLen))                                             // e
+		if newLen >= oldLen && !(r.Quirk.ArrayLengthSameValueRejects && newLen == oldLen) { // f
 			return r.ordinaryDefineOwnProperty(a, "length", newLenDesc, throw)
 		}
 		if !oldLenDesc.Writable { // g
 			return reject()
 		}
-		newWritable := true // h
+		newWritable := true                                 // h
 		if newLenDesc.HasWritable && !newLenDesc.Writable { // i
 			newWritable = false
 			newLenDesc.Writable = true
 		}
 		succeeded := r.ordinaryDefineOwnProperty(a, "length", newLenDesc, throw) // j
-		if !succeeded {                                                           // k
+		if !succeeded {                                                          // k
 			return false
 		}
 		for newLen < oldLen { // l
@@ -528,6 +573,26 @@ func (r *Realm) arrayDefineOwnProperty(a *Obj, p string, desc Desc, throw bool) 
 		}
 		return true // n
 	}
+	if r.Quirk.ArrayIndexParseInt {
+		if _, canonical := IsArrayIndex(p); !canonical {
+			if index, ok := parseIntIndex(p); ok {
+				// the descriptor goes to the canonical name; when that is an existing
+				// index it is then also applied to P itself
+				if index >= oldLen && !oldLenDesc.Writable {
+					return reject()
+				}
+				if !r.ordinaryDefineOwnProperty(a, NumberToString(float64(index)), desc, false) {
+					return reject()
+				}
+				if index >= oldLen {
+					oldLenDesc.Value = Num(float64(index) + 1)
+					r.ordinaryDefineOwnProperty(a, "length", *oldLenDesc, false)
+					return true
+				}
+				return r.ordinaryDefineOwnProperty(a, p, desc, throw)
+			}
+		}
+	}
 	if index, ok := IsArrayIndex(p); ok { // 4
 		if index >= oldLen && !oldLenDesc.Writable { // b
 			return reject()
@@ -543,4 +608,30 @@ func (r *Realm) arrayDefineOwnProperty(a *Obj, p string, desc Desc, throw bool) 
 		return true // f
 	}
 	return r.ordinaryDefineOwnProperty(a, p, desc, throw) // 5
+}
+
+// parseIntIndex is the index test of Quirks.ArrayIndexParseInt: what
+// strconv.ParseInt(p, 10, 64) accepts, restricted to 0 <= n < 2^32-1.
+func parseIntIndex(p string) (uint32, bool) {
+	s := p
+	if s != "" && (s[0] == '+' || s[0] == '-') {
+		s = s[1:]
+	}
+	if s == "" || len(s) > 18 {
+		return 0, false
+	}
+	var n uint64
+	for i := 0; i < len(s); i++ {
+		if s[i] < '0' || s[i] > '9' {
+			return 0, false
+		}
+		n = n*10 + uint64(s[i]-'0')
+	}
+	if p[0] == '-' && n != 0 {
+		return 0, false
+	}
+	if n >= 4294967295 {
+		return 0, false
+	}
+	return uint32(n), true
 }
